@@ -136,6 +136,7 @@ def generate(cls, rng):
                          horizon=rng.choice([200, 1000, 4000]))
         return dict(specs=[spec, sib], fmt=[fmt, dict(fmt)], kinds=kinds,
                     threads=threads, builds=builds,
+                    fwd=rng.choice([0, 0, 0, 6, 3]),
                     sched=dict(strategy=strat, seed=rng.getrandbits(32)))
     specs = [PX.gen_spec(rng, gmt_p=0.08)
              for _ in range(rng.choice([1, 2, 2, 3]))]
@@ -179,7 +180,14 @@ def generate(cls, rng):
         else:
             ops.append(["sweep", "h%d" % rng.randrange(handles),
                         rng.choice([2023, 2024])])
-    return dict(specs=specs, fmt=fmt, ops=ops)
+    # calendar.setfirstweekday() is process-wide configuration a rule
+    # resolver might consult; POSIX rules do not depend on it
+    fwd = rng.choice([0, 0, 0, 6, rng.randrange(7)])
+    if fwd or rng.random() < 0.2:
+        for _ in range(rng.choice([1, 2])):
+            ops.insert(rng.randrange(1, len(ops) + 1),
+                       ["firstweekday", rng.randrange(7)])
+    return dict(specs=specs, fmt=fmt, ops=ops, fwd=fwd)
 
 
 # ---------------------------------------------------------------------------
@@ -484,8 +492,10 @@ def execute_threads(scenario, ctx):
 
 
 def execute(cls, scenario, ctx):
+    import calendar
     import warnings
     warnings.simplefilter("ignore")
+    calendar.setfirstweekday(scenario.get("fwd", 0) % 7)
     if cls == "threads":
         return execute_threads(scenario, ctx)
     env = Env(ctx, scenario)
@@ -495,7 +505,11 @@ def execute(cls, scenario, ctx):
     try:
         for op in scenario["ops"]:
             k = op[0]
-            if k == "set_tz":
+            if k == "firstweekday":
+                calendar.setfirstweekday(op[1] % 7)
+                ctx.event("firstweekday", op[1] % 7)
+                ctx.probe("calendar_firstweekday_changed")
+            elif k == "set_tz":
                 env.cur = op[1]
                 set_env(None if op[1] is None else env.strings[op[1]])
                 env.settings_seen.add(op[1])
